@@ -1303,6 +1303,18 @@ def with_debug_log(ops):
     return [ops[0] + (' log=debug' if '#' in ops[0] else ' #log=debug')] + ops[1:]
 
 
+def _dict_kinds(ops):
+    """the same `eapi … dict …` operations with the dict handed over as OrderedDict / defaultdict / a user subclass"""
+    out = []
+    for j, o in enumerate(ops):
+        t = o.split()
+        if t[0] == 'eapi' and len(t) > 3 and t[3] == 'dict':
+            out.append(o + (' ' if '#' in o else ' #') + 'dictkind=' + ('ordered', 'default', 'sub')[j % 3])
+        else:
+            out.append(o)
+    return out
+
+
 def dict_dupkey_stream(start_id=19000):
     """dict containers holding the same name once as str and once as bytes (two different keys), and iterables
     passed as one-shot generators while a size change is pending"""
@@ -2405,4 +2417,56 @@ def dispatch_boundary_stream(start_id=47000):
                     ops.append('ddec %d %d %s' % (i, (f + len(t)) % 2, hx(lead + bytes([f]) + t)))
                     if warm is not None:
                         ops.append('ddec %d 1 bebf' % i)
+    return ops
+
+
+def int_call_forms_stream():
+    """encode_integer / decode_integer called with keyword arguments and with a keyword for the width only: refusals
+    (widths outside 1..8, negatives), boundaries and truncations must not depend on how the arguments are passed"""
+    ops = []
+    for kw in ('1', 'mixed'):
+        for N in (-8, -1, 0, 9, 10, 100):
+            ops.append('ienc 5 %d #kw=%s' % (N, kw))
+            ops.append('idec 05 %d #kw=%s' % (N, kw))
+            ops.append('idec ff01 %d #kw=%s' % (N, kw))
+        for N in range(1, 9):
+            m = 2 ** N - 1
+            for v in (0, m - 1, m, m + 1, m + 127, m + 128, m + 16384, 2 ** 32):
+                ops.append('ienc %d %d #kw=%s' % (v, N, kw))
+                e = int_octets(v, N)
+                ops.append('idec %s %d #kw=%s' % (hx(e), N, kw))
+                ops.append('idec %s %d #kw=%s' % (hx(e[:-1]), N, kw))
+            ops.append('ienc -1 %d #kw=%s' % (N, kw))
+    return ops
+
+
+def ctor_options_stream(g, n=6, start_id=48000):
+    """instances constructed through every optional constructor parameter the harness does not know (a new option of the
+    library under test gets a non-default value; on a library without any this is the plain constructor): connections with
+    evictions, repeated fields, sensitive fields and size changes must still satisfy the properties -- judged only, the
+    model knows nothing of new options"""
+    ops = []
+    rnd = g.rnd
+    i = start_id
+    names = [b'x-a', b'cookie', b'n', b':path', b'k', b'custom-key', b'etag', b'x-b']
+    for c in range(n):
+        i += 1
+        ops += ['enewx %d' % i, 'dnewx %d' % i, 'enew %d' % (i + 500), 'dnew %d' % (i + 500)]
+        for blk in range(14):
+            hs = []
+            for _ in range(rnd.randint(1, 6)):
+                nm = rnd.choice(names)
+                val = rnd.choice([b'', b'v', b'/', b'w' * rnd.choice([3, 40, 300, 1200])]) + bytes([0x30 + rnd.randrange(4)])
+                hs.append((nm, val, 1 if rnd.random() < 0.15 else 0))
+            if blk == 9 and c % 2:
+                ops.append('esize %d 200' % i); ops.append('esize %d 200' % (i + 500))
+            for e in (i, i + 500):          # the default-configured twin sees the same fields (options of one must not leak)
+                ops.append('eenc %d %d %s' % (e, blk % 2, _hs(hs)))
+                ops.append('pipe %d %d %d' % (e, blk % 2, e))
+        ops.append('tnewx %d' % i)
+        for j in range(40):
+            ops.append('tadd %d %s %s' % (i, hx(rnd.choice(names)), hx(b'v' * rnd.choice([0, 1, 50, 900]))))
+            if j % 7 == 3:
+                ops.append('tget %d %d' % (i, 62 + rnd.randrange(4)))
+                ops.append('tsearch %d %s %s' % (i, hx(rnd.choice(names)), hx(b'v')))
     return ops
